@@ -27,7 +27,8 @@ RunChars(r) == [i \in 1..Len(r.cs) |-> <<r.cs[i], r.f>>]
 RECURSIVE FlatD(_)
 FlatD(blocks) ==
   CatMap(blocks, LAMBDA b : IF b.k = "p" THEN CatMap(b.runs, RunChars)
-                            ELSE CatMap(b.rows, LAMBDA row : CatMap(row, FlatD)))
+                            ELSE IF b.k = "tbl" THEN CatMap(b.rows, LAMBDA row : CatMap(row, FlatD))
+                            ELSE <<>>)
 RECURSIVE FlatP(_)
 FlatP(blocks) ==
   CatMap(blocks, LAMBDA b : IF b.k = "p" THEN [i \in 1..Len(Chars(b.atoms)) |-> <<Chars(b.atoms)[i].t, Chars(b.atoms)[i].f>>]
